@@ -81,6 +81,7 @@ Record Inv (g : ghost) (s : state) : Prop := {
   i_exc : (forall e, m_pc s <> MExited e) -> m_exc s = map ExCb (g_rz g);
   i_exit : forall e, m_pc s = MExited e -> e = Some ExSetChanged \/ e = hd_error (map ExCb (g_rz g));
   i_mx : forall e, In e (g_mx g) -> m_pc s = MExited e;
+  i_mx_rev : forall e, m_pc s = MExited e -> In e (g_mx g);
   i_cr : forall e, In e (g_cr g) -> closer s = CDone e;
   i_cdone : forall e, closer s = CDone e -> m_pc s = MExited e
 }.
@@ -145,6 +146,7 @@ Proof.
   - intros n E. elim (Hn n E).
   - intros e E. elim (He e E).
   - intros e H. specialize (i_mx0 e H). elim (He' e i_mx0).
+  - intros e E. elim (He e E).
   - intros e H. specialize (i_cdone0 e H). elim (He' e i_cdone0).
 Qed.
 
@@ -166,8 +168,9 @@ Proof.
     try (intros e' [<-|H]; [reflexivity|specialize (i_mx0 e' H); elim (Hne e' i_mx0)]);
     try (intros e' H; specialize (i_cr0 e' H); congruence);
     try (intros e' H; specialize (i_cdone0 e' H); elim (Hne e' i_cdone0)).
-  - intros e' [<-|H]; [reflexivity|]. specialize (i_cr0 e' H). congruence.
-  - intros e' E. injection E as <-. reflexivity.
+  all: try solve [intros e' E; injection E as <-; left; reflexivity].
+  all: try solve [intros e' [<-|H]; [reflexivity|]; specialize (i_cr0 e' H); congruence].
+  all: try solve [intros e' E; injection E as <-; reflexivity].
 Qed.
 
 Lemma step_mon_inv g s :
